@@ -291,8 +291,32 @@ class Inliner:
             # the initial None is only needed when some path falls off the end; keep it simple: always
             if not state["value"] or _ft:
                 out.append(init)
+        # `a, b = helper(..)` with the helper returning tuple displays: bind the components directly (a = x; b = y), so that
+        # the data flow of each component stays visible
+        tgt = st.targets[0] if isinstance(st, ast.Assign) and len(st.targets) == 1 else None
+        split = False
+        if isinstance(tgt, ast.Tuple) and all(isinstance(e, ast.Name) for e in tgt.elts) and state["value"] and not _ft:
+            ret_assigns = [x for s_ in new_body for x in [s_] + list(_own_nodes(s_)) if isinstance(x, ast.Assign) and len(x.targets) == 1 and isinstance(x.targets[0], ast.Name) and x.targets[0].id == ret]
+            if ret_assigns and all(isinstance(x.value, ast.Tuple) and len(x.value.elts) == len(tgt.elts) for x in ret_assigns):
+                split = True
+
+                class Split(ast.NodeTransformer):
+                    def visit_Assign(self, x):
+                        if len(x.targets) == 1 and isinstance(x.targets[0], ast.Name) and x.targets[0].id == ret and isinstance(x.value, ast.Tuple):
+                            parts = []
+                            for i_, e_ in enumerate(x.value.elts):
+                                parts.append(ast.copy_location(ast.Assign(targets=[ast.Name(id=f"{ret}_{i_}", ctx=ast.Store())], value=e_), x))
+                            return parts
+                        return x
+
+                new_body = [y for s_ in new_body for y in (lambda r: r if isinstance(r, list) else [r])(Split().visit(s_))]
+                out = [o for o in out if not (isinstance(o, ast.Assign) and isinstance(o.targets[0], ast.Name) and o.targets[0].id == ret)]
         out += new_body
-        if needs_value:
+        if needs_value and split:
+            for i_, e_ in enumerate(tgt.elts):
+                a_ = ast.Assign(targets=[ast.Name(id=e_.id, ctx=ast.Store())], value=ast.Name(id=f"{ret}_{i_}", ctx=ast.Load()))
+                out.append(ast.copy_location(a_, st))
+        elif needs_value:
             st2 = copy.copy(st)
             st2.value = ast.copy_location(ast.Name(id=ret, ctx=ast.Load()), call)
             out.append(st2)
